@@ -2,8 +2,10 @@ package main
 
 import (
 	"fmt"
+	"io"
 	"math/rand"
 	"strings"
+	"testing/iotest"
 	"unicode/utf8"
 
 	"github.com/influxdata/influxql"
@@ -13,8 +15,9 @@ import (
 //
 //	scan.ops <ops> s:<runes as Go decodes them> b:<raw bytes>
 //
-// ops is a word over {S,R} (or "-"): S = Scan, R = ScanRegex, executed first;
-// afterwards Scan is called until EOF. Output: tok#line:char:lit:consumed | ...
+// ops is a word over {S,R,1,-}: S = Scan, R = ScanRegex, executed first; afterwards Scan is
+// called until EOF. '1' feeds the scanner through a one-byte-at-a-time reader (a CRLF then
+// straddles two reads), '-' is a no-op. Output: tok#line:char:lit:consumed | ...
 
 func scanCase(ops, text string) []string {
 	if ops == "" {
@@ -32,9 +35,23 @@ func genScanOps(r *rand.Rand, n int, emit func(args ...string)) {
 		emit(scanCase("SR", "a"+s)...)
 		emit(scanCase("SSR", "=~ "+s)...)
 	}
+	// line breaks at the 4096-byte buffer boundary of bufio.Reader, and through a one-byte reader
+	for _, pad := range []int{4094, 4095, 4096, 8191} {
+		for _, br := range []string{"\r\n", "\r", "\n", "\r\r\n"} {
+			emit(scanCase("-", strings.Repeat(" ", pad)+br+"x 'y'\nz")...)
+			emit(scanCase("-", strings.Repeat("a", pad)+br+"x")...)
+		}
+	}
+	for _, s := range []string{"a\r\nb", "SELECT value\r\nFROM cpu\r\nWHERE", "a\rb\nc", "\r\r\n\n\rx", "'a\r\nb'", "-- c\r\nx", "/* \r\n */x"} {
+		emit(scanCase("1", s)...)
+	}
 	for i := 0; i < n; i++ {
 		withNul := i%5 == 0
 		text := randLexText(r, withNul)
+		if i%7 == 3 {
+			emit(scanCase("1", text)...)
+			continue
+		}
 		ops := "-"
 		if r.Intn(6) == 0 {
 			k := 1 + r.Intn(4)
@@ -56,7 +73,11 @@ type scanTok struct {
 }
 
 func runScanner(ops string, b []byte) []scanTok {
-	s := influxql.NewScanner(strings.NewReader(string(b)))
+	var rd io.Reader = strings.NewReader(string(b))
+	if strings.Contains(ops, "1") {
+		rd = iotest.OneByteReader(rd)
+	}
+	s := influxql.NewScanner(rd)
 	var out []scanTok
 	limit := utf8.RuneCount(b) + 8
 	do := func(regex bool) influxql.Token {
@@ -71,8 +92,8 @@ func runScanner(ops string, b []byte) []scanTok {
 		out = append(out, scanTok{tok, pos, lit, s.VerifConsumed()})
 		return tok
 	}
-	if ops != "-" {
-		for _, c := range ops {
+	for _, c := range ops {
+		if c == 'S' || c == 'R' {
 			do(c == 'R')
 		}
 	}
@@ -125,14 +146,24 @@ func lineCols(b []byte) (cols []influxql.Pos, delivered []rune) {
 	return
 }
 
+// fixedSpelling: token kinds whose text is determined by the kind (up to letter case).
+func fixedSpelling(tok influxql.Token) bool {
+	switch tok {
+	case influxql.ILLEGAL, influxql.EOF, influxql.WS, influxql.COMMENT, influxql.IDENT, influxql.BOUNDPARAM, influxql.NUMBER,
+		influxql.INTEGER, influxql.DURATIONVAL, influxql.STRING, influxql.BADSTRING, influxql.BADESCAPE, influxql.REGEX, influxql.BADREGEX:
+		return false
+	}
+	return tok.String() != ""
+}
+
 // propScanOps (C05): tokens tile the text and carry the position of their first character.
 func propScanOps(args []string) string {
 	b, err := decBytes(args[2])
-	if err != nil || args[0] != "-" {
+	if err != nil || strings.ContainsAny(args[0], "SR") {
 		return "skip"
 	}
 	cols, delivered := lineCols(b)
-	toks := runScanner("-", b)
+	toks := runScanner(args[0], b)
 	if len(toks) == 0 || toks[len(toks)-1].tok != influxql.EOF {
 		return "scan did not end with EOF"
 	}
@@ -148,6 +179,27 @@ func propScanOps(args []string) string {
 			want := cols[prev]
 			if t.pos != want {
 				return fmt.Sprintf("token %d (kind %d, lit %q) starts at line %d char %d but is reported at line %d char %d", i, int(t.tok), t.lit, want.Line, want.Char, t.pos.Line, t.pos.Char)
+			}
+		}
+		// re-spelling: a token covers exactly the characters of its spelling (checked for the kinds
+		// whose spelling is fixed by kind and literal, away from the end of the text and from NUL)
+		if t.consumed < len(delivered) && !strings.ContainsRune(string(delivered), 0) {
+			ext := t.consumed - prev
+			want := -1
+			switch {
+			case t.tok == influxql.ILLEGAL && t.lit != "":
+				want = utf8.RuneCountInString(t.lit)
+			case t.tok == influxql.WS:
+				want = utf8.RuneCountInString(t.lit)
+			case t.tok == influxql.IDENT && prev < len(delivered) && delivered[prev] != '"' && !strings.ContainsRune(string(delivered[prev:t.consumed]), '"'):
+				want = utf8.RuneCountInString(t.lit)
+			case t.tok == influxql.INTEGER || t.tok == influxql.DURATIONVAL:
+				want = utf8.RuneCountInString(t.lit)
+			case t.lit == "" && fixedSpelling(t.tok):
+				want = len(t.tok.String()) // operators, punctuation, keywords
+			}
+			if want >= 0 && ext != want {
+				return fmt.Sprintf("token %d (kind %d, lit %q, spelling %q) covers %d characters, its spelling has %d", i, int(t.tok), t.lit, t.tok.String(), ext, want)
 			}
 		}
 		prev = t.consumed
